@@ -323,7 +323,7 @@ LEVEL_TEXT = (
     "exactly the public extractor's measurements of that component and its result must equal an independent public search "
     "bitwise; the returned functions (Arrhenius-rescaled for single curves, compared with an independent formula) are then "
     "evaluated along the reported trajectory and every reported permeance must equal function x one constant factor fixed "
-    "by step 0 (1e-10). Held means no oracle failed on this run's executions."
+    "by step 0 (1e-10); 15 % of the cases take their initial permeances from a first pass (fitted value x (1 + 0 .. 1e-3)). Held means no oracle failed on this run's executions."
 )
 LEVEL_NOTE = "Trusted: determinism of the optimiser within one process; the membrane's public calculate_activation_energy (C12)."
 TECHNIQUE = "runtime monitoring: boundary recorder of inner best-fit / activation-energy calls + reference recomputation along the reported trajectory"
